@@ -1491,8 +1491,23 @@ func TestVerifC40(t *testing.T) {
 			results[i] = res{c, d, cl}
 		}(i)
 	}
+	// Core-level forced schedules (zz_verif_c40core_test.go): they attribute goroutines by receiver pointer and run
+	// side by side with the soak
+	nCore := n / 4
+	if nCore < 5 {
+		nCore = 5
+	}
+	var coreRes []vC40KRes
+	wg.Add(1)
+	go func() {
+		defer wg.Done()
+		coreRes = vC40KRunAll(r, nCore)
+	}()
 	wg.Wait()
 	for _, x := range results {
+		out.Case(x.coq, x.desc, x.class, true)
+	}
+	for _, x := range coreRes {
 		out.Case(x.coq, x.desc, x.class, true)
 	}
 }
